@@ -115,7 +115,13 @@ fn main() {
         }
         Err(p) => {
             if p.downcast_ref::<AssumeViolated>().is_some() {
-                ("assume_violated", String::new())
+                if !src.fails.is_empty() {
+                    // a tagged assertion failed BEFORE the run stopped at a later assumption (typically a
+                    // draw beyond the recorded counterexample): the earlier failure stands
+                    ("assert_fail", src.fails.join(" | "))
+                } else {
+                    ("assume_violated", String::new())
+                }
             } else if pinfo.as_deref().unwrap_or("").starts_with("REPLAY-MISMATCH") {
                 ("replay_mismatch", pinfo.clone().unwrap_or_default())
             } else if !src.fails.is_empty() {
